@@ -104,7 +104,35 @@ def _ser(conv):
     return serialize
 
 
+class Celsius:
+    """A third-party style value type (not a SubclassJSONSerializer) and a subtype of it; both are registered, the
+    subtype first - the mirror image of date/datetime, where the base type is registered first."""
+
+    def __init__(self, degrees):
+        self.degrees = degrees
+
+    def __eq__(self, other):
+        return type(self) is type(other) and self.__dict__ == other.__dict__
+
+    def __hash__(self):
+        return hash(self.degrees)
+
+    def __repr__(self):
+        return f"{type(self).__name__}({self.__dict__})"
+
+
+class PreciseCelsius(Celsius):
+    def __init__(self, degrees, error):
+        super().__init__(degrees)
+        self.error = error
+
+
 _reg = JSONSerializableTypeRegistry()
+_reg.register(PreciseCelsius, _ser(lambda c: [c.degrees, c.error]),
+              lambda data, **kw: PreciseCelsius(data["value"][0], data["value"][1]))
+_reg.register(Celsius, _ser(lambda c: c.degrees), lambda data, **kw: Celsius(data["value"]))
+_reg.register(datetime.date, _ser(lambda d: d.isoformat()),
+              lambda data, **kw: datetime.date.fromisoformat(data["value"]))
 _reg.register(Decimal, _ser(str), lambda data, **kw: Decimal(data["value"]))
 _reg.register(Fraction, _ser(lambda f: [f.numerator, f.denominator]),
               lambda data, **kw: Fraction(data["value"][0], data["value"][1]))
